@@ -48,7 +48,7 @@ class Context:
         src = os.path.join(HARNESS, "bin")
         for name in ("sbatch", "squeue", "scancel", "probe", "hookprobe", "recprobe", "flaky"):
             shutil.copy(os.path.join(src, "vsim_rpc.py"), os.path.join(self.bin, name))
-        for name in ("jade", "jade-internal"):
+        for name in ("jade", "jade-internal", "vpy"):
             shutil.copy(os.path.join(src, "zshim.py"), os.path.join(self.bin, name))
         shutil.copy(os.path.join(src, "srun"), os.path.join(self.bin, "srun"))
         for f in os.listdir(self.bin):
